@@ -93,8 +93,9 @@ Lemma root_fields_overlap acc_fields : forall fields f,
 Proof.
   induction acc_fields as [|g t IH]; intros fields f Hin Hb Hn Hf; [contradiction|]. cbn [root_fields].
   destruct Hin as [->|Hin].
-  - rewrite Hb, Hn. cbn [orb]. now rewrite Hf.
-  - destruct (is_builtin (f_name g) || is_node_field g); [eapply IH; eauto|].
+  - rewrite Hb, Hn. cbn [andb]. now rewrite Hf.
+  - destruct (is_builtin (f_name g)); [eapply IH; eauto|].
+    destruct (is_node_field g && field_named (f_name g) fields); [eapply IH; eauto|].
     destruct (field_named (f_name g) fields); [reflexivity|].
     eapply IH; eauto. unfold field_named in *. rewrite existsb_app, Hf. reflexivity.
 Qed.
@@ -376,11 +377,11 @@ Lemma root_fields_sub acc_fields : forall fields fs,
 Proof.
   induction acc_fields as [|g t IH]; intros fields fs H fld Hin; cbn [root_fields] in H.
   - inversion H; subst. now left.
-  - destruct (is_builtin (f_name g) || is_node_field g).
-    + destruct (IH _ _ H fld Hin); [now left|right; now right].
-    + destruct (field_named (f_name g) fields); [discriminate|].
-      destruct (IH _ _ H fld Hin) as [Hf|Hf]; [|right; now right].
-      apply in_app_or in Hf as [Hf|[->|[]]]; [now left|right; now left].
+  - destruct (is_builtin (f_name g)); [destruct (IH _ _ H fld Hin); [now left|right; now right]|].
+    destruct (is_node_field g && field_named (f_name g) fields); [destruct (IH _ _ H fld Hin); [now left|right; now right]|].
+    destruct (field_named (f_name g) fields); [discriminate|].
+    destruct (IH _ _ H fld Hin) as [Hf|Hf]; [|right; now right].
+    apply in_app_or in Hf as [Hf|[->|[]]]; [now left|right; now left].
 Qed.
 
 Lemma overlap_scan_sub mf : forall result flags fld,
